@@ -272,6 +272,7 @@ func runC20(w *World, r *Report) {
 
 	// ---- R-C20-6: Admin implies Authenticated
 	c20AdminStores(w, r)
+	c20PermissionsAccumulate(w, r)
 
 	// ---- R-C20-4 route table
 	routes := extractRoutes(w)
@@ -640,5 +641,67 @@ func c20AdminStores(w *World, r *Report) {
 				r.Discharge("R-C20-6", key, w.pos(as.Pos()), "on every consistent path the stored value is false unless the value stored to Session.Authenticated is true")
 			}
 		}
+	}
+}
+
+// c20PermissionsAccumulate: R-C20-7. A route's required permissions only grow:
+// each call of Route.Permissions adds to what earlier calls declared. A store
+// that replaces the list with one not computed from it silently drops
+// requirements the declaration still names.
+func c20PermissionsAccumulate(w *World, r *Report) {
+	r.Rule("R-C20-7", "Route.Permissions never drops a declared permission: every store to Route.requiredPermissions is computed from the list it replaces (append to it, or a copy of it), or initialises it where it was found nil", 1)
+
+	rp := w.pkg("internal/router")
+	if rp == nil {
+		return
+	}
+
+	fn := w.ssaFunc(rp, "Route.Permissions")
+	if fn == nil {
+		r.Anchor("R-C20-7", "router.Route.Permissions")
+
+		return
+	}
+
+	n := 0
+
+	allInstrs(fn, func(in ssa.Instruction) {
+		st, ok := in.(*ssa.Store)
+		if !ok {
+			return
+		}
+
+		fa, ok := st.Addr.(*ssa.FieldAddr)
+		if !ok || fieldName(fa.X.Type(), fa.Field) != "requiredPermissions" {
+			return
+		}
+
+		n++
+
+		key := "router.Route.Permissions|store requiredPermissions"
+		if n > 1 {
+			key += " #" + sprintInt(n)
+		}
+
+		if valueInvolvesFieldLoad(st.Val, "requiredPermissions", map[ssa.Value]bool{}) {
+			r.Discharge("R-C20-7", key, w.pos(st.Pos()), "computed from the list it replaces")
+
+			return
+		}
+
+		// initialisation where the list was found nil
+		for _, f := range dominatingFacts(st.Block()) {
+			if f.Kind == "nil" && isFieldNamed(f.V, "requiredPermissions") {
+				r.Discharge("R-C20-7", key, w.pos(st.Pos()), "initialises a nil list")
+
+				return
+			}
+		}
+
+		r.Violate("R-C20-7", key, w.pos(st.Pos()), "the route's required permissions are replaced by a list that is not computed from the one already declared: a route declared .Permissions(a).Permissions(b) ends up requiring only b, and a caller holding b alone reaches the handler")
+	})
+
+	if n == 0 {
+		r.Anchor("R-C20-7", "a store to requiredPermissions in router.Route.Permissions")
 	}
 }
